@@ -2,7 +2,7 @@
 from hypothesis import strategies as st
 
 from .. import formula as F
-from ..common import dt_cases, std_candidates, feature_labels, fmt_vals
+from ..common import dt_cases, std_candidates, feature_labels, fmt_vals, giant_cases
 from ..formula import Profile, from_json, show
 from ..monitors import run_dt_off
 from ..refsem import dt, Undefined, needs_tolerance, same
@@ -13,7 +13,7 @@ PROPERTY = 'C01'
 RULE = ('Typed random STL grammar (arithmetic incl. unary minus/ln/log, six comparisons, Boolean, rise/fall, '
         'prev/next/s_prev/s_next, bounded+unbounded past and future, unless) x random traces of length 1..12 '
         '(thorough 24) with dyadic values; lanes main/short/deep/bigbound/timecol and long (few large cases: 16-48 samples, bounds up to 20, up to five variables); one trace in five uses very few distinct values (zeros, ties, plateaus). Oracle: independent quadratic '
-        'lane hugetrace: 700..3000 samples under windows of 30..130 samples with long runs of few distinct values; lane reevaluate: one specification object evaluated repeatedly on one data-set dictionary that the caller edits in place between the calls (a value changes, a sample is appended or dropped); '
+        'lane giant: one bounded operator with a window of 200..1100 samples (around 256, 512 and 1024; lower bound 0..300; bounded since/until up to 300), alone, negated, next to its dual or under a narrow operator, on mostly flat traces with a few isolated extreme samples, 1 .. 2*bound+5 samples long; lane hugetrace: 700..3000 samples under windows of 30..130 samples with long runs of few distinct values; lane reevaluate: one specification object evaluated repeatedly on one data-set dictionary that the caller edits in place between the calls (a value changes, a sample is appended or dropped); '
         'reference R-dt; result must be n [time,value] pairs with the given time column. Non-trivial = formula has '
         '>=1 temporal/event operator and the reference result is not constant over the trace, or n == 1; '
         'distinct = distinct (formula text, trace, time column) digests.')
@@ -308,6 +308,8 @@ def strat_hugetrace_(draw, tier):
 
 
 LANES = [
+    # windows of 200..1100 samples (around 256, 512, 1024), lower bound 0 or not, traces shorter than the lower bound up to twice the upper bound
+    Lane('giant', lambda tier: giant_cases(F.TUN_PAST + F.TUN_FUT, ('since', 'until')), check, 150, 1500, None),
     Lane('hugetrace', lambda tier: strat_hugetrace_(tier), check, 100, 1000, None),
     Lane('reevaluate', lambda tier: strat_reevaluate_(tier), check_reevaluate, 1000, 15000, cand_reevaluate),
     Lane('verylong', lambda tier: strat_verylong_(tier), check, 150, 2000, std_candidates),
